@@ -181,7 +181,8 @@ Theorem C16_dss_history_defined_binary64 : forall (P : Type) p g ops (st : state
 Proof. exact dss_history_defined_binary64. Qed.
 Print Assumptions C16_dss_history_defined_binary64.
 
-(* src_search::tune_parameters (repaired tree) gives an open period / percentage
+(* src_search::tune_parameters (guards, typeid comparison and defaults regenerated from search.tcc /
+   environment.cc) gives an open period / percentage
    its default when the matching strategy is active and keeps user settings *)
 Theorem C16_tune_fills_validation_parameters : forall vs d p,
   (vs = VsHoldout -> snd (tune_fixed vs d p) = if p =? sentinel then dflt_perc else p)
@@ -189,6 +190,16 @@ Theorem C16_tune_fills_validation_parameters : forall vs d p,
   /\ (d <> sentinel -> fst (tune_fixed vs d p) = d) /\ (p <> sentinel -> snd (tune_fixed vs d p) = p).
 Proof. exact tune_fixed_fills. Qed.
 Print Assumptions C16_tune_fills_validation_parameters.
+
+(* in particular a percentage the user SET to 0 (legal: nothing is held out) and a period set to
+   any value are kept; the defaults are those of environment::init *)
+Theorem C16_tune_keeps_user_settings : forall vs d p, d <> sentinel -> p <> sentinel -> tune_fixed vs d p = (d, p).
+Proof. exact tune_keeps_user_settings. Qed.
+Print Assumptions C16_tune_keeps_user_settings.
+
+Theorem C16_tune_defaults : dflt_dss = 1 /\ dflt_perc = 20.
+Proof. exact tune_defaults. Qed.
+Print Assumptions C16_tune_defaults.
 
 (* ---------------------------------------------------------- non-vacuity *)
 Definition ex0 (u : Z) : example unit := mkEx u tt 0 0.
